@@ -112,7 +112,8 @@ var c11Exprs = []string{
 	"(.a, .b) = 1", ".a.b.c = 1", ".[\"a\"]", ".a?", ".[]?", ".a[]?", ". tag = \"!!str\"", ". style=\"flow\"", ". anchor = \"x\"", ".a alias = \"x\"", ". line_comment = \"c\"", "... comments=\"\"", "to_entries | from_entries", "[.[] | select(.a == 1)]",
 	// operands that are sequences of maps, maps of maps; values reached through aliases
 	". - [{\"b\": \"a\"}]", ". - [.[0]]", "[.[0]] - .", "contains([{\"b\": \"c\"}])", ".[0] | contains({\"b\": \"a\"})", "unique_by(.b)", ".[] |= . + {\"z\": 1}", ".a.b", ".a[0]", ".a[]", ".a.b = 1", ".b[0].c", ".c.d.e", ".a |= . + 1",
-	"(.a | alias) as $n | .", ".x alias = \"nope\" | .x.y", ".a alias = \"x\" | .a.b", ".[] | keys", ".[] | length", ".[] | to_entries", "map(pivot)", ".[] | pivot", "[.[] | tag]", ".[] | sort_keys(.)", ".[] | flatten", ".[] | reverse", ".[] | has(0)", ".[] | has(\"a\")",
+	"(.a | alias) as $n | .", ".x alias = \"nope\" | .x.y", ".a alias = \"x\" | .a.b", ".a alias = \"x\" | .a[0]", ".a alias = \"x\" | .a[]", ".a alias = \"x\" | .a[1:]", ".a alias = \"x\" | .a | length",
+	".a alias = \"x\" | .a | keys", ".a alias = \"x\" | explode(.)", ".a alias = \"x\" | .a + 1", ".a alias = \"x\" | [.a] | sort", ".a alias = \"x\" | .a == 1", ".a alias = \"x\" | .. | tag", ".[] | keys", ".[] | length", ".[] | to_entries", "map(pivot)", ".[] | pivot", "[.[] | tag]", ".[] | sort_keys(.)", ".[] | flatten", ".[] | reverse", ".[] | has(0)", ".[] | has(\"a\")",
 }
 
 func VerifC11Operators() {
@@ -474,7 +475,14 @@ func VerifC11Encoders() {
 	var sb strings.Builder
 	w := bufio.NewWriter(c17Writer{&sb})
 	printer := NewPrinter(enc, NewSinglePrinterWriter(w))
-	if err := printer.PrintResults(vDoc(n).AsList()); err != nil {
+	doc := vDoc(n)
+	if verifChoice("unresolvedAlias", 2) == 1 {
+		// `alias = "name"` makes a node an alias whose target is only known once the output is read again
+		if _, err := vEval(vParse("(.. | select(tag == \"!!str\")) alias = \"later\""), doc); err != nil {
+			return
+		}
+	}
+	if err := printer.PrintResults(doc.AsList()); err != nil {
 		verifCover("C11/encoders/error")
 	} else {
 		verifCover("C11/encoders/output")
